@@ -2,9 +2,9 @@
 # usage: tools/confirm_seed.sh <seed-dir> <scratch-worktree>  -- confirms: demo passes on clean tree, fails with patch; test-suite passes with patch
 D="$(readlink -f "$1")"; WT="$2"
 git -C "$WT" checkout -q -- . ; git -C "$WT" clean -fdq
-( cd "$WT" && PYTHONPATH="$WT" timeout 600 /venv/bin/python "$D/demo.py" >/tmp/demo_clean.txt 2>&1 ); rc_clean=$?
+( cd "$WT" && PYTHONPATH="$WT" timeout 600 /venv/bin/python "$D/demo.py" >/tmp/demo_clean_$(basename $WT).txt 2>&1 ); rc_clean=$?
 git -C "$WT" apply "$D/patch.diff" || { echo "PATCH-DOES-NOT-APPLY"; exit 2; }
-( cd "$WT" && PYTHONPATH="$WT" timeout 600 /venv/bin/python "$D/demo.py" >/tmp/demo_patched.txt 2>&1 ); rc_patched=$?
-echo "demo: clean rc=$rc_clean patched rc=$rc_patched :: $(tail -1 /tmp/demo_patched.txt | cut -c1-200)"
+( cd "$WT" && PYTHONPATH="$WT" timeout 600 /venv/bin/python "$D/demo.py" >/tmp/demo_patched_$(basename $WT).txt 2>&1 ); rc_patched=$?
+echo "demo: clean rc=$rc_clean patched rc=$rc_patched :: $(tail -1 /tmp/demo_patched_$(basename $WT).txt | cut -c1-200)"
 /verif/tools/baseline.sh "$WT" 2>&1 | tail -2
 git -C "$WT" checkout -q -- . ; git -C "$WT" clean -fdq
